@@ -17,7 +17,7 @@ WATCHDOG = {"quick": 900, "thorough": 3000}
 REQUIRED_CLASSES = {t: ["law:neuber", "law:seegerbeste", "branch:primary", "branch:secondary", "kp=1", "kp_near_1",
                         "load>tensile_strength", "load_elastic", "load_zero_in_array", "configured_through_setter", "arrays_reused_by_the_caller", "tol=0.0001", "tol=1e-10", "container:float",
                         "container:np.float64", "container:array1", "container:arrayN", "container:series_range",
-                        "container:series_multiindex", "container:series1", "material:steel", "material:cast", "material:aluminium"]
+                        "container:series_multiindex", "container:series1", "material:steel", "material:cast", "material:aluminium", "load:tiny_absolute(1e-7..1e-3)"]
                     for t in ("quick", "thorough")}
 REQUIRED_MONITORS = ["independent_of_array_identity_and_history", "root_within_tolerance", "between_L/Kp_and_L", "odd", "strictly_increasing", "load(stress(L))==L",
                      "containers_agree", "strain==ramberg_osgood(stress)"]
@@ -249,6 +249,35 @@ def run_case(case, ctx):
                 wtag = ["c06_inverse_returned_unconverged_with_warning"] if warned else []
                 ctx.check("load(stress(L))==L", gotb.shape == L.shape and bool(np.all(np.abs(gotb - L) <= lim)), observed=gotb, expected=L,
                           tags=narrow + wtag + tag, detail={"branch": branch, "container": case["container"], "convergence_warnings": warned})
+    # ---- loads that are tiny in absolute terms (nodes that carry next to nothing in a large mesh): the root is the load itself
+    # to many digits, and the requested tolerance is an absolute one, so the judgement stays |sigma - root| <= 2 (tol + rtol |root|)
+    ctx.tag("load:tiny_absolute(1e-7..1e-3)")
+    rt = np.random.Generator(np.random.PCG64(int(abs(hash((round(m["K"], 6), round(kp, 6), tol))) % (2**31))))
+    tiny = np.sort(10.0 ** (-rt.uniform(3, 7, 4)))
+    # Seeger-Beste: the secant's second start value is x0 (1 + 1e-4) + 1e-4 (scalar) resp. x0 (1 + 6e-6) + 6e-6 (array) - far
+    # outside [L/K_p, L] for such loads; the iteration then leaves for a spurious root of the equation (recorded finding)
+    offset = ["c06_seegerbeste_secant_offset_exceeds_load"] if kind == "seegerbeste" else []
+    for branch, fwd in (("primary", law.stress), ("secondary", law.stress_secondary_branch)):
+        Lt = tiny if branch == "primary" else 2.0 * tiny
+        truth = np.array([N.solve(kind, branch, float(x), m["E"], m["K"], m["n"], kp) for x in Lt])
+        for what, arg in (("ndarray", Lt.copy()), ("scalar", None)):
+            if what == "ndarray":
+                r, err = _call(ctx, fwd, arg, tol, f"{kind}.{branch}.stress(tiny ndarray)", ["container_ndarray"])
+                got = None if r is None else np.asarray(r, dtype=float).reshape(-1)
+            else:
+                got = []
+                for x in Lt:
+                    r, err = _call(ctx, fwd, float(x), tol, f"{kind}.{branch}.stress(tiny float)", ["container_float"])
+                    got.append(np.nan if r is None else float(np.asarray(r).reshape(-1)[0]))
+                got = np.asarray(got)
+                if np.all(np.isnan(got)):
+                    got = None
+            if got is None:
+                continue
+            judged = ~np.isnan(got)
+            bad = [(float(l), float(s), float(t)) for l, s, t in zip(Lt[judged], got[judged], truth[judged]) if not abs(s - t) <= allow(t)]
+            ctx.check("root_within_tolerance", not bad, observed=bad[:4], expected="|sigma - root| <= 2(tol+rtol|root|)",
+                      tags=narrow + offset, detail={"branch": branch, "tol": tol, "loads": Lt, "argument": what, "class": "tiny loads"})
     # what the functions return depends on the values they are given, not on array identity or on earlier calls
     from .. import alias
     nzl = loads[loads > 0][:5]
